@@ -1,4 +1,5 @@
 import Proofs.StorageSim
+import Proofs.StorageImages
 /-! C15 — memory and file back-ends are observationally equal. `FileStorage` (bytes + cursor),
     `MemoryStorage` (Python slice assignment) and `MemMapStorage` all simulate one abstract list of
     whole blocks under the call discipline the trie and link code obey; the model's `step` never
@@ -31,5 +32,65 @@ theorem C15_equiv (ops : List SOp) (f : FileSt) (m : MemSt) (b : Blocks) (hf : f
     reads are back-end independent -/
 theorem C15_cursor_hazard : ∃ f₁ f₂ : FileSt, f₁.data = f₂.data ∧ f₁.pos ≠ f₂.pos ∧ (f₁.read 2 none).2 ≠ (f₂.read 2 none).2 :=
   FileSt.cursor_read_depends_on_pos
+
+section Full
+open Traph State Layout
+/-! ### the bridge (Proofs/StorageNoZero, StorageBridge, StorageImages): the storage calls the index issues, fed to the
+    file machine and to the memory machine -/
+
+/-- THE PROPERTY, for every history whatsoever (any configuration, any requests incl. malformed ones, `clear` and reopen anywhere): (a) answers and reports do not depend on the back-end (one model; the ghost log is never read); (b) after every single storage call and after every request the file back-end and the memory back-end hold identical bytes, equal to the codec image of the index state, and every write call answered the same on both; (c) the memory-mapped reader, the file reader and the memory reader return the same block at every block offset: the encoded cell / stub / header of the state -/
+theorem C15_backends (cfg : Config) (dflt : Rule) (rules : List (Bytes × Rule)) (ops : List Op) :
+    let fr := (State.fresh cfg dflt rules []).1
+    let es := historyEvents cfg dflt rules ops
+    -- (a)
+    (∀ log : List Write,
+      sb_answers (State.fresh cfg dflt rules log).1 ops = sb_answers fr ops ∧
+      (State.fresh cfg dflt rules log).2 = (State.fresh cfg dflt rules []).2 ∧
+      (State.fresh cfg dflt rules log).1.run ops = (fr.run ops).addLog log) ∧
+    -- (b) after every single storage call
+    (∀ k : Nat, ∀ i : sb_StoreId,
+      ((sb_fileOf (es.take k)).1.get i).data = ((sb_memOf (es.take k)).1.get i).data ∧
+      ((sb_fileOf (es.take k)).1.get i).data = (replayE (es.take k)).sb_image i ∧
+      (sb_fileOf (es.take k)).2 = (sb_memOf (es.take k)).2) ∧
+    -- (b) after every request
+    (∀ n : Nat,
+      let sn := fr.run (ops.take n)
+      let en := historyEvents cfg dflt rules (ops.take n)
+      en = es.take en.length ∧
+      (sb_fileOf en).1.trie.data = encodeTrie sn ∧ (sb_memOf en).1.trie.data = encodeTrie sn ∧
+      (sb_fileOf en).1.links.data = encodeLinks sn ∧ (sb_memOf en).1.links.data = encodeLinks sn) ∧
+    -- (c) the memory-mapped reader, after every request
+    (∀ n b : Nat,
+      let sn := fr.run (ops.take n)
+      let en := historyEvents cfg dflt rules (ops.take n)
+      (∀ i : sb_StoreId,
+        mmapRead ((sb_fileOf en).1.get i).data i.bs (b * i.bs) = (((sb_fileOf en).1.get i).read i.bs (some (b * i.bs))).2 ∧
+        mmapRead ((sb_fileOf en).1.get i).data i.bs (b * i.bs) = ((sb_memOf en).1.get i).read i.bs (b * i.bs)) ∧
+      (0 < b → b < sn.trie.size →
+        mmapRead (sb_fileOf en).1.trie.data trieBlock (b * trieBlock) = some (encodeCell (sn.cell b))) ∧
+      (∀ x, 0 < b → sn.links[b]? = some x →
+        mmapRead (sb_fileOf en).1.links.data linkBlock (b * linkBlock) = some (encodeStub x)) ∧
+      mmapRead (sb_fileOf en).1.trie.data trieBlock 0 = some (encodeTrieHeader sn.hdrId) ∧
+      mmapRead (sb_fileOf en).1.links.data linkBlock 0 = some encodeLinkHeader) :=
+  Traph.C15_backends cfg dflt rules ops
+
+/-- the calls of every clear-free history satisfy the call discipline under which the three storage machines were shown equivalent (whole blocks, headers first, rewrites inside the file, never block 0 of the trie) -/
+theorem C15_discipline_noclear (cfg : Config) (dflt : Rule) (rules : List (Bytes × Rule)) (ops : List Op)
+    (hfree : ∀ op ∈ ops, op.isClear = false) (st : sb_StoreId) :
+    let s := (State.fresh cfg dflt rules []).1.run ops
+    let calls := sb_opsOf st s.log.reverse
+    (⟨st.bs, []⟩ : Blocks).AllDisciplined calls ∧
+    (({} : FileSt).runOps st.bs calls).2 = (({} : MemSt).runOps st.bs calls).2 ∧
+    (({} : FileSt).runOps st.bs calls).1.data = s.files.sb_image st ∧
+    (({} : MemSt).runOps st.bs calls).1.data = s.files.sb_image st :=
+  Traph.C15_discipline_noclear cfg dflt rules ops hfree st
+
+/-- multi-block stems: writing a node of any stem length appends exactly its head block and its tail blocks to the image, the same bytes on both back-ends -/
+theorem C15_writeNew_image (s : State) (h0 : 0 < s.trie.size) (stem : Bytes) (p : Nat) (c : Bool) :
+    encodeTrie (s.writeNew stem p c).1 =
+      encodeTrie s ++ encodeCell (headCell stem p c) ++ ((tailsOf stem).map encodeCell).flatten :=
+  Traph.C15_writeNew_image s h0 stem p c
+
+end Full
 
 end Traph.Props
